@@ -180,6 +180,33 @@ func checkC13(e *Engine, r *Report) {
 		} else {
 			r.Undecided("R1:bl-setconfig-error-returned", "R1 failure is reported", "Reconfigure calls setConfig once", e.Pos(blReconf.Pos()), blReconf, fmt.Sprintf("%d calls", len(sc)))
 		}
+		// E: a successful setConfig has made the new options the ones in force (the idempotence test of the next update and
+		// every later allocation decision read them)
+		if fOpts := e.Field(pkgBL, "balloons", "bpoptions"); fOpts != nil && len(setConfig.Params) >= 2 {
+			optP := ssa.Value(setConfig.Params[1])
+			installs := func(in ssa.Instruction) bool {
+				st, ok := in.(*ssa.Store)
+				if !ok || fieldOfAddr(st.Addr) != fOpts {
+					return false
+				}
+				// the parameter itself or a copy of it
+				return originAll(st.Val, func(v ssa.Value) bool {
+					if sameObject(v, optP) {
+						return true
+					}
+					if c, ok := v.(*ssa.Call); ok && callObj(c.Common()) != nil && strings.HasPrefix(callObj(c.Common()).Name(), "DeepCopy") {
+						a := callArgs(c)
+						return len(a) >= 1 && sameObject(a[0], optP)
+					}
+					return false
+				})
+			}
+			p := FindPath(PathQuery{Fn: setConfig, Block: installs, Target: func(in ssa.Instruction) bool {
+				ret, ok := in.(*ssa.Return)
+				return ok && e.maySucceed(ret)
+			}})
+			r.Check("R1:bl-success-installs", "R12 rollback", "every successful setConfig(options) has installed those options as the ones in force", e.Pos(setConfig.Pos()), setConfig, p == nil, e.pathString(p), true)
+		}
 	}
 
 	// ------------------------------------------------------------- B: faithful clones
